@@ -392,9 +392,10 @@ func (c *Cluster) pushPingMetrics(ctx context.Context) {
 // Alerts returns the last alerts recorded by this cluster peer with the most
 // recent first.
 func (c *Cluster) Alerts() []api.Alert {
-	alerts := make([]api.Alert, len(c.alerts))
-
 	c.alertsMux.Lock()
+	// size the copy under the lock: alerts may arrive (or be reset)
+	// between reading the length and copying.
+	alerts := make([]api.Alert, len(c.alerts))
 	{
 		total := len(alerts)
 		for i, a := range c.alerts {
